@@ -13,6 +13,13 @@ namespace CopVerif.Model.Vine
 def ConsecShare (first : Bool) (t : Tree) : Prop :=
   ∀ i, i + 1 < t.length → ShareNode first (t.getD i default) (t.getD (i + 1) default)
 
+/-- the construction shape of a direct vine's trees: the first tree is the edge list of a
+    duplicate-free node sequence; edge `i` of a later tree joins edges `i` and `i + 1`. -/
+def DShape (first : Bool) (t : Tree) : Prop :=
+  if first then ∃ T1 : List Nat, T1.Nodup ∧ t = pathEdges T1
+  else List.Forall₂ (fun k e => e.ends false = (k, k + 1) ∨ e.ends false = (k + 1, k))
+    (List.range t.length) t
+
 def SharesEnd (p q : Nat × Nat) : Prop := p.1 = q.1 ∨ p.1 = q.2 ∨ p.2 = q.1 ∨ p.2 = q.2
 
 theorem Walks.consec {v : Nat} {seen : List Nat} {pairs : List (Nat × Nat)} (h : Walks v seen pairs) :
@@ -81,7 +88,8 @@ theorem directKth_spec {n : Nat} {pp : Option Tree} {prev : Tree} {tau : Mat α}
     {ts : List α} (hn : 2 ≤ n) (hlen : prev.length = n) (hcons : ConsecShare pp.isNone prev)
     (h : directKth n prev tau = .ok (t, ts)) :
     t.length + 1 = n ∧ (∀ e ∈ t, ChildOK pp.isNone prev e) ∧
-      SpanningTree n (t.map (Edge.ends false)) ∧ Walks 0 [0] (t.map (Edge.ends false)) := by
+      SpanningTree n (t.map (Edge.ends false)) ∧ Walks 0 [0] (t.map (Edge.ends false)) ∧
+      DShape false t := by
   unfold directKth at h
   rw [bind_eq_ok] at h
   obtain ⟨t', ht', h⟩ := h
@@ -102,10 +110,13 @@ theorem directKth_spec {n : Nat} {pp : Option Tree} {prev : Tree} {tau : Mat α}
     (pairs := t'.map (Edge.ends false)) (by
       rw [← List.range_eq_range', List.forall₂_map_right_iff]
       exact hedge.imp fun _ _ h => h.2) (by simp) (by simp) (by omega)
-  refine ⟨by omega, ?_, ⟨by simp; omega, 0, by omega, hwg.2⟩, hwg.1⟩
-  intro e he
-  obtain ⟨r, _, hS⟩ := forall₂_exists_left hedge e he
-  exact hS.1
+  refine ⟨by omega, ?_, ⟨by simp; omega, 0, by omega, hwg.2⟩, hwg.1, ?_⟩
+  · intro e he
+    obtain ⟨r, _, hS⟩ := forall₂_exists_left hedge e he
+    exact hS.1
+  · simp only [DShape, Bool.false_eq_true, ite_false]
+    rw [hl]
+    exact hedge.imp fun _ _ h => h.2
 
 end
 /-! ## the first tree: the greedy path -/
@@ -410,7 +421,7 @@ theorem directFirst_spec {n : Nat} {tau : Mat α} {l r : Nat} {t : Tree} {ts : L
     (h : directFirst n tau l r = .ok (t, ts)) :
     t.length + 1 = n ∧ (∀ e ∈ t, FirstEdgeSpec n e) ∧
       SpanningTree n (t.map (Edge.ends true)) ∧ IsPath (t.map (Edge.ends true)) ∧
-      Top2Facts n (colKeys tau 0 n) l r := by
+      DShape true t ∧ Top2Facts n (colKeys tau 0 n) l r := by
   unfold directFirst at h
   split at h
   · rename_i hok
@@ -429,7 +440,8 @@ theorem directFirst_spec {n : Nat} {tau : Mat α} {l r : Nat} {t : Tree} {ts : L
       simp only [pathEdges, List.take_succ_cons, List.take_zero]
       have hm : mkSorted 1 0 = mkEdge 0 1 := by simp [mkSorted]
       rw [hm]
-      refine ⟨rfl, ?_, ⟨rfl, 0, by omega, ?_⟩, ⟨0, ?_⟩, hf⟩
+      refine ⟨rfl, ?_, ⟨rfl, 0, by omega, ?_⟩, ⟨0, ?_⟩,
+        by simp only [DShape, ite_true]; exact ⟨[1, 0], by simp, by simp [pathEdges, hm]⟩, hf⟩
       · intro e he
         simp only [List.mem_singleton] at he; subst he
         exact ⟨rfl, rfl, by simp [mkEdge], by simp [mkEdge]⟩
@@ -469,7 +481,8 @@ theorem directFirst_spec {n : Nat} {tau : Mat α} {l r : Nat} {t : Tree} {ts : L
         simp only [List.mem_singleton] at hmem; subst hmem
         rw [hvr] at hnd
         exact (List.nodup_cons.mp hnd).1 hx)
-      refine ⟨by rw [hp.1]; omega, hp.2.1, ⟨by simp [hp.1]; omega, v, ?_, hw.2⟩, ⟨v, hw.1⟩, hf⟩
+      refine ⟨by rw [hp.1]; omega, hp.2.1, ⟨by simp [hp.1]; omega, v, ?_, hw.2⟩, ⟨v, hw.1⟩,
+        by simp only [DShape, ite_true]; exact ⟨T1, hnd, rfl⟩, hf⟩
       exact hlt v (by rw [hvr]; simp)
   · simp at h
 
